@@ -9,7 +9,7 @@ from C02 import setup_spec
 
 THEOREMS = 'IsoTp.Props.C04'
 RULE = ('operation histories over the alphabet {FC ContinueToSend bs=0 / bs=1 / bs=2+stmin 1 ms, FC Wait, FC Overflow, FC with reserved STmin, '
-        'garbage, process(), process(tx only), tick 0.4 ms, tick beyond N_Bs} applied from six starting states (idle, waiting for the first '
+        'garbage, a First Frame of the peer read by process(rx only), process(), process(tx only), tick 0.4 ms, tick beyond N_Bs} applied from six starting states (idle, waiting for the first '
         'Flow Control, mid-block with unlimited grant, mid-block of a granted block of 3 with STmin 5 ms, rate-limiter SF standby, rate-limiter FF standby): EXHAUSTIVE for all histories of length <= 3 (quick) / '
         '<= 4 (thorough, plus sampled length 5-7), with wftmax in {0,1,3} and a second queued message; plus long random histories. Oracle: '
         'no Consecutive Frame before the first ContinueToSend; never more Consecutive Frames than the largest block size granted since the '
@@ -45,6 +45,9 @@ def letters(pfx, rid, ext, tbs_ns):
         'cts3s': [fc(0, 3, 5), [0, 'proc', 1, 1]], 't_st': [[0, 'tick', 5100000], [0, 'proc', 1, 1]],
         '2cts': [fc(0, 0), fc(0, 1), [0, 'proc', 1, 1]],
         'wait3': [fc(1, 0), [0, 'proc', 1, 1], fc(1, 0), [0, 'proc', 1, 1], fc(1, 0), [0, 'proc', 1, 1]],
+        # full duplex: the peer starts a message of its own and the First Frame is read by a receive-only call - the layer's own Flow
+        # Control is still to be sent when the next letters arrive
+        'ffrx': [[0, 'rx', rid, int(ext), hx(pfx + bytes([0x10, 20]) + bytes(range(6 - len(pfx))))], [0, 'proc', 1, 0]],
     }
 
 
@@ -217,5 +220,5 @@ def run_shard(campaign, shard, nshards, seed, tier):
 def run(ctx):
     run_sharded(ctx, 'C04', 'exhaustive')
     run_sharded(ctx, 'C04', 'random')
-    ctx.exhaustive['all flow-control histories up to length %s over the 15-letter alphabet from each starting state' % ('2' if ctx.quick else '3')] = True
+    ctx.exhaustive['all flow-control histories up to length %s over the 16-letter alphabet from each starting state' % ('2' if ctx.quick else '3')] = True
     return RULE, ASSUME
